@@ -40,6 +40,7 @@ func programCorpus(tier string) func(emit func(progenum.Prog)) {
 		testdataProgs(emit)
 		progenum.Odd(emit)
 		progenum.Empties(emit)
+		progenum.EmbedGraphs(2, 3, emit)
 		progenum.TypeShapes(emit)
 		progenum.Shadow(quick, emit)
 		if quick {
